@@ -45,6 +45,7 @@ deriving Inhabited
 
 structure DSt where
   tr : String := ""
+  pv : String := ""
   status : String := ""
   calls : List CallRec := []
   victim : Nat := 0
@@ -74,7 +75,7 @@ def mkCfg (st : DSt) : Cfg :=
     | some k => k.dir == "c2s"
     | none => true
   let info (i : Nat) : Info :=
-    if i == followBase || i == followBase + 2 || i == followBase + 3 || i == followBase + 4 then { dir := .c2s, plain := !(st.tr.startsWith "sl" && (suffix st.tr).contains 'p') }
+    if i == followBase || i == followBase + 2 || i == followBase + 3 || i == followBase + 4 then { dir := .c2s, plain := st.pv != "2026-07-28" }  -- the follow-up is a ping; under 2026-07-28 (no ping) a tool call
     else if i == followBase + 1 then { dir := .s2c, encl := carrier, plain := true }
     else match st.calls[i]? with
       | some k =>
@@ -338,7 +339,7 @@ def engine : Engine DSt where
     | ["reset"] => ({}, { model := "ok" })
     | "cfg" :: rest =>
       match kv rest "tr" with
-      | some tr => ({ tr := tr, status := impl }, { model := "ok" })
+      | some tr => ({ tr := tr, pv := (kv rest "pv").getD "", status := impl }, { model := "ok" })
       | none => (st, { model := "bad-op" })
     | "c" :: rest =>
       match kv rest "dir", kv rest "meth" with
